@@ -21,6 +21,8 @@ structure Act where
   m : Nat
 
 structure SModel where
+  lags : Nat
+  leads : Nat
   nE : Nat
   n : Nat
   check : List Nat
@@ -51,6 +53,8 @@ def play (M : SModel) (o : Opts) (u : SState) (t : Int) (a : Act) : SState × Bo
 def keepAct : Act := ⟨.keep, #[], 0⟩
 
 def interp (M : SModel) : Interp SState (Array Float) where
+  lags := M.lags
+  leads := M.leads
   check u t := (M.check.map fun i => (u[i]?.getD #[])[pos M.n t]?.getD 0.0).toArray
   allFinite v := v.all Float.isFinite
   close cur prev := (cur.zip prev).all fun (c, p) => Float.abs (c - p) < M.tol
@@ -97,7 +101,10 @@ def parseModel (j : Json) : R (SModel × World SState) := do
   let vals ← (← arr j "vals").mapM floats
   let status ← parseStatus (← str j "status")
   let iters ← (← arr j "iters").toList.mapM (·.getInt?)
-  pure (⟨nE, n, check, tol, script, beforeS, afterS⟩, ⟨vals, status, iters⟩)
+  let optNat := fun (key : String) => match j.getObjVal? key with
+    | .ok v => v.getNat?.toOption.getD 0
+    | .error _ => 0
+  pure (⟨optNat "lags", optNat "leads", nE, n, check, tol, script, beforeS, afterS⟩, ⟨vals, status, iters⟩)
 
 def resultStr : Result → String
   | .ret true => "ret:T"
